@@ -468,4 +468,89 @@ theorem c16_roundtrip (h i e pth raw t1 t2 t3 t4 t5 t6 uc un ur : Tok) (fa : Lis
     simp [hc]
   · simp [alookup_aset, hh1]
 
+
+/-! ### "storing the same curve again updates only the user fields" -/
+
+/-- the attribute names a save writes as user fields -/
+def userKeys (u : User) : List String :=
+  ["user comment", "user name", "user rate"] ++ u.extra.map Prod.fst
+
+/-- a write that leaves attribute `k` and the group's existence / datasets alone -/
+def NoKey (k : String) : Write → Prop
+  | .attr _ a _ => a ≠ k
+  | .grpDel _ => False
+  | .grpNew _ => False
+  | .dset _ _ _ => False
+  | _ => True
+
+theorem userWrites_noKey (x : Curve) (u : User) (k : String) (hk : k ∉ userKeys u) :
+    ∀ w ∈ userWrites x u, NoKey k w := by
+  intro w hw
+  unfold userWrites at hw
+  unfold userKeys at hk
+  simp only [List.cons_append, List.nil_append, List.mem_cons, List.mem_append, List.mem_map,
+    List.mem_nil_iff, false_or, not_or, or_false] at hw hk
+  rcases hw with h | h | h | ⟨p, hp, h⟩ <;> subst h <;> simp only [NoKey, ne_eq]
+  · exact fun e => hk.1 e.symm
+  · exact fun e => hk.2.1 e.symm
+  · exact fun e => hk.2.2.1 e.symm
+  · exact fun e => hk.2.2.2 ⟨p, hp, e⟩
+
+def KeepsAttr (k : String) (g0 : Group) (og : Option Group) : Prop :=
+  ∃ g, og = some g ∧ alookup g.attrs k = alookup g0.attrs k
+
+theorem gstep_keepsAttr (idd k : String) (g0 : Group) (og : Option Group) (w : Write) (hw : NoKey k w)
+    (h : KeepsAttr k g0 og) : KeepsAttr k g0 (gstep idd og w) := by
+  obtain ⟨g, hg, hh⟩ := h
+  subst hg
+  cases w with
+  | dataDel _ => exact ⟨g, rfl, hh⟩
+  | dataSet _ _ => exact ⟨g, rfl, hh⟩
+  | dataPath _ _ => exact ⟨g, rfl, hh⟩
+  | grpDel i => exact absurd hw (by simp [NoKey])
+  | grpNew i => exact absurd hw (by simp [NoKey])
+  | dset i a t => exact absurd hw (by simp [NoKey])
+  | attr i a val =>
+    simp only [gstep]
+    split
+    · simp only [NoKey] at hw
+      refine ⟨_, rfl, ?_⟩
+      simp only
+      rw [alookup_aset_other _ _ _ _ (Ne.symm hw)]
+      exact hh
+    · exact ⟨g, rfl, hh⟩
+
+/-- **only the user fields change**: when a complete entry with the same fit is stored again – whatever
+the fit settings of the object handed in, and whether or not the save fails part-way – every attribute that
+is not a user field (all `fit …` settings, parameters and the hash in particular) is what it was -/
+theorem c16_resave_same_keeps_other_attrs (c : Cont) (x : Curve) (u : User) (g0 : Group)
+    (hg0 : c.ana x.idd = some g0) (hc0 : complete g0 = true)
+    (hfit : alookup g0.dsets "fit" = alookup x.dsets "fit") (fault : Option Nat)
+    (k : String) (hk : k ∉ userKeys u) :
+    ∃ g, (save c x u fault).1.ana x.idd = some g ∧ alookup g.attrs k = alookup g0.attrs k := by
+  have hplan : plan c x u = .ok (dataWrites c x ++ userWrites x u) := by simp [plan, hg0, hc0, hfit]
+  obtain ⟨p, hp, hcase⟩ := save_is_prefix c x u fault
+  rw [hp, foldl_ana, hg0]
+  rcases hcase with ⟨L, s, hL, hps⟩ | ⟨s, hps⟩
+  · rw [hplan] at hL
+    injection hL with hL
+    apply foldl_inv (KeepsAttr k g0) (gstep x.idd) p (some g0)
+    · exact ⟨g0, rfl, rfl⟩
+    · intro og w hw h
+      have hmem : w ∈ dataWrites c x ++ userWrites x u := by
+        rw [hL, ← hps]; exact List.mem_append_left _ hw
+      rcases List.mem_append.mp hmem with h1 | h1
+      · rw [gstep_data _ _ _ (dataWrites_isData c x w h1)]; exact h
+      · exact gstep_keepsAttr x.idd k g0 og w (userWrites_noKey x u k hk w h1) h
+  · have hdat : ∀ w ∈ p, IsData w := fun w hw =>
+      dataWrites_isData c x w (by rw [← hps]; exact List.mem_append_left _ hw)
+    rw [foldl_gstep_data _ _ _ hdat]
+    exact ⟨g0, rfl, rfl⟩
+
+/-- non-vacuity: a stored fit setting is not a user field -/
+example (u : User) (h : ∀ p ∈ u.extra, p.1 ≠ "fit range_x") : "fit range_x" ∉ userKeys u := by
+  unfold userKeys
+  simp only [List.cons_append, List.nil_append, List.mem_cons, List.mem_map, not_or, not_exists, not_and]
+  refine ⟨by decide, by decide, by decide, fun p hp e => h p hp e⟩
+
 end Nanite.C16
